@@ -117,11 +117,25 @@ Record ciqcase := MkCiq {
   q_tol : float
 }.
 
+(* entrywise RELATIVE comparison |a-b| <= tol * max(|a|,|b|) (exact zeros, e.g. the unshifted row of the shifts, must
+   agree exactly): the quadrature weights / shifts scale with each member's own spectrum, and the reference rule is only
+   reproducible up to the solver round-off of the (preconditioned) eigenvalue estimate — a rule taken from ANOTHER member
+   differs by O(1) relative *)
+Definition close_rel (tol a b : float) : bool :=
+  PrimFloat.leb (PrimFloat.abs (PrimFloat.sub a b))
+                (PrimFloat.mul tol (fmax (PrimFloat.abs a) (PrimFloat.abs b))).
+Fixpoint all_close_rel (tol : float) (x y : seq float) : bool :=
+  match x, y with
+  | [::], [::] => true
+  | a :: x', b :: y' => close_rel tol a b && all_close_rel tol x' y'
+  | _, _ => false
+  end.
+
 (* 0 = agreement; 1 sizes of the per-member rule; 2 weights; 3 shifts *)
 Definition check_ciq (c : ciqcase) : nat :=
   if ~~ ((size (q_w c) == q_Q c * q_B c) && (size (q_sh c) == (q_Q c).+1 * q_B c)) then 1
-  else if ~~ all_close (q_tol c) (t_expand_lead ArF (q_Q c) (q_k c) (q_B c) (q_w c)) (q_W c) then 2
-  else if ~~ all_close (q_tol c) (t_expand_lead ArF (q_Q c).+1 (q_k c) (q_B c) (q_sh c)) (q_S c) then 3
+  else if ~~ all_close_rel (q_tol c) (t_expand_lead ArF (q_Q c) (q_k c) (q_B c) (q_w c)) (q_W c) then 2
+  else if ~~ all_close_rel (q_tol c) (t_expand_lead ArF (q_Q c).+1 (q_k c) (q_B c) (q_sh c)) (q_S c) then 3
   else 0.
 
 Fixpoint bad_ciq (cs : seq ciqcase) (i : nat) : seq nat :=
